@@ -147,6 +147,13 @@ CHECKS = {
         "Bound: lexer n<=5 (quick) / 8 (thorough) code points; sequences <=2 tokens over the ~100-spelling reduced alphabet and <=3 over a 33-spelling core (thorough 3 / 4). Tokens are rendered blank/newline separated. BaseException and resource exhaustion are outside.",
         "DESIGN.md 3/C06",
     ),
+    "C15": (
+        "model_checking",
+        "CrossHair (z3) exhaustive exploration of inputs and ordered input pairs: frame condition (structural fingerprint of every module- and class-level object before/after each parse), history independence against fresh-interpreter baselines, re-entrant parses from inside every callback",
+        "(F) for every input of the pool no parse leaves a write in any of the ~530 module/class-level objects (incl. the prototype lexer); (H) for ALL ordered pairs (A, B) the outcome of B after A equals its outcome as the first parse of a fresh interpreter; (R) for all pairs, B parsed from inside every callback of A equals its stand-alone outcome and A is unaffected. 'Confirmed over all paths' = the pair space was exhausted.",
+        "Bound: pool of 64 valid / invalid / truncated / lexer-error inputs; histories of length 2 (longer ones only through (F)). THREAD SCHEDULES ARE NOT EXPLORED - no engine here models Python interleavings; that quantifier is covered only via (F) under the assumption that concurrent reads of unmodified objects are safe in CPython. One concrete 4-thread run is a smoke test, not a verdict.",
+        "DESIGN.md 3/C15",
+    ),
 }
 
 NOT_YET = "no check landed yet in this build (planned engine and bounds: DESIGN.md section 3); not claimed until the check runs green"
